@@ -217,32 +217,16 @@ def run_all(modname, tier, jobs):
     pool = None
 
     def mapper(f, xs):
-        """parallel map that survives a worker being killed (e.g. by the OOM killer): the units of a
-        broken pool are retried one by one in fresh single-worker pools; a unit that kills its worker
-        again is reported as a crash"""
+        """parallel map that survives a worker being killed (e.g. by the OOM killer) or wedged in the solver:
+        see pyvc/pool.py; a unit that kills its worker twice is reported as a crash"""
         if serial:
             return [f(x) for x in xs]
-        import concurrent.futures as cf
-        ctxm = mp.get_context("fork")
-        out = [None] * len(xs)
-        try:
-            with cf.ProcessPoolExecutor(max_workers=jobs, mp_context=ctxm) as ex:
-                futs = {ex.submit(f, x): i for i, x in enumerate(xs)}
-                for fu in cf.as_completed(futs):
-                    out[futs[fu]] = fu.result()
-            return out
-        except cf.process.BrokenProcessPool:
-            pass
-        for i, x in enumerate(xs):
-            if out[i] is not None:
-                continue
-            try:
-                with cf.ProcessPoolExecutor(max_workers=1, mp_context=ctxm) as ex:
-                    out[i] = ex.submit(f, x).result()
-            except cf.process.BrokenProcessPool:
-                out[i] = ("crash", "worker process died (killed?)") if f is _plan else \
-                    {"crash": "worker process died while running this unit (killed, e.g. out of memory)", "_wall": 0}
-        return out
+        from . import pool as P
+        if f is _plan:
+            fail = lambda x, why: ("crash", why)        # noqa
+        else:
+            fail = lambda x, why: {"crash": why, "_wall": 0}     # noqa
+        return P.run(f, xs, jobs, deadline_s=(900 if tier == "quick" else 7200), on_fail=fail)
 
     try:
         plans = mapper(_plan, [(modname, i, tier) for i in range(len(tasks))])
